@@ -361,6 +361,29 @@ func spanFamilies() [][]spanCase {
 			s.Events = []tracesdk.Event{ev("", tBase, 0, af[i]), ev("Ünï ✓", tBase.Add(1), 3)}
 		})
 	}
+	// many items per span: the SDK's default limits (128) are configuration, not a bound of the
+	// encoding -- a provider with raised limits hands the exporter longer lists
+	for _, n := range []int{127, 128, 129, 300, 1000} {
+		n := n
+		mk("event.count", fmt.Sprintf("%d events", n), func(s *tracetest.SpanStub) {
+			s.Events = make([]tracesdk.Event, n)
+			for i := range s.Events {
+				s.Events[i] = ev(fmt.Sprintf("e%d", i), tBase.Add(time.Duration(i)), 0)
+			}
+		})
+		mk("link.count", fmt.Sprintf("%d links", n), func(s *tracetest.SpanStub) {
+			s.Links = make([]tracesdk.Link, n)
+			for i := range s.Links {
+				s.Links[i] = tracesdk.Link{SpanContext: sctx(trace.TraceID{15: 7}, trace.SpanID{6: byte(i >> 8), 7: byte(i)}, 0, "", false)}
+			}
+		})
+		mk("attributes.count", fmt.Sprintf("%d attributes", n), func(s *tracetest.SpanStub) {
+			s.Attributes = make([]attribute.KeyValue, n)
+			for i := range s.Attributes {
+				s.Attributes[i] = attribute.Int(fmt.Sprintf("k%04d", i), i)
+			}
+		})
+	}
 	flush()
 	// links: 0..2 per span; ids, trace state, remote, flags, attributes, dropped counts
 	ln := func(sc trace.SpanContext, d int, as ...attribute.KeyValue) tracesdk.Link {
